@@ -484,3 +484,161 @@ Definition wrun (copy : bool) (m0 : message) (ids : list N) (sched : list nat) :
 
 Definition wobj (pc : wpc) : option nat :=
   match pc with WStart => None | WCopied o | WStamped o | WInWrite o | WDone o _ => Some o end.
+
+(* ------------------------------------------------------------------------------------------------ *)
+(* Part K: the forwarder cache of DnsController (one key): getOrCreateDnsForwarder, forwardWithDialArg, *)
+(*         retireCachedDnsForwarder (CompareAndDelete + retire), retireAllDnsForwarders (reload),      *)
+(*         closeAllDnsForwarders (Close).                                                              *)
+(* ------------------------------------------------------------------------------------------------ *)
+(* One step = one sync.Map operation or one method of a cachedDnsForwarder (beginUse / endUse / retire /
+   closeNow taken as atomic here: their internal interleavings are the subject of Part F).
+   [cas = false] is the variant whose retire-by-key deletes the slot unconditionally. *)
+Record fent := { fe_inflight : Z; fe_retired : bool; fe_closed : bool }.
+
+Inductive qpc :=
+| QIdle                      (* before getOrCreateDnsForwarder (first attempt) *)
+| QCreating (a : nat)        (* Load missed; inside dnsForwarderFactory; a = attempt *)
+| QHold (e : nat) (a : nat)  (* got entry e; beginUse still to come *)
+| QUsing (e : nat)           (* inside entry.forwarder.ForwardDNS *)
+| QEnded (e : nat)           (* endUse done *)
+| QRetiring (e : nat)        (* retireCachedDnsForwarder removed e from the cache; entry.retire() to come *)
+| QDone (r : N).             (* 0 answered, 1 forward error, 2 "retired before request could start" *)
+
+Record kstate := {
+  k_ents : list fent;              (* every forwarder instance ever created, by creation order *)
+  k_cache : option nat;            (* dnsForwarderCache[key] *)
+  k_qs : list (bool * qpc);        (* per query: will its ForwardDNS fail?, program counter *)
+  k_bad : bool                     (* ghost: an instance was closed by endUse/retire while a query was inside it *)
+}.
+
+Inductive kev := KSpawn (fail : bool) | KQ (t : nat) | KReload | KCloseAll.
+
+Definition kinit : kstate := {| k_ents := []; k_cache := None; k_qs := []; k_bad := false |}.
+
+Definition fresh_ent : fent := {| fe_inflight := 0; fe_retired := false; fe_closed := false |}.
+Definition is_qusing (e : nat) (q : bool * qpc) : bool :=
+  match snd q with QUsing e' => Nat.eqb e' e | _ => false end.
+Definition is_qretiring (e : nat) (q : bool * qpc) : bool :=
+  match snd q with QRetiring e' => Nat.eqb e' e | _ => false end.
+Definition q_quiet (q : bool * qpc) : bool := match snd q with QDone _ => true | _ => false end.
+
+(* retire(): retired = true; close if nothing in flight *)
+Definition ent_retire (en : fent) : fent :=
+  {| fe_inflight := fe_inflight en; fe_retired := true;
+     fe_closed := fe_closed en || (fe_inflight en =? 0)%Z |}.
+(* endUse(): decrement; close if it reached zero and the entry is retired *)
+Definition ent_enduse (en : fent) : fent :=
+  {| fe_inflight := fe_inflight en - 1; fe_retired := fe_retired en;
+     fe_closed := fe_closed en || ((fe_inflight en - 1 =? 0)%Z && fe_retired en) |}.
+Definition ent_begin (en : fent) : fent :=
+  {| fe_inflight := fe_inflight en + 1; fe_retired := fe_retired en; fe_closed := fe_closed en |}.
+Definition ent_close (en : fent) : fent :=
+  {| fe_inflight := fe_inflight en; fe_retired := fe_retired en; fe_closed := true |}.
+
+Definition kset_q (s : kstate) (t : nat) (q : bool * qpc) : kstate :=
+  {| k_ents := k_ents s; k_cache := k_cache s; k_qs := set_nth (k_qs s) t q; k_bad := k_bad s |}.
+
+(* the close performed by en -> en' is new and some query is inside instance e *)
+Definition close_in_flight (en en' : fent) (e : nat) (qs : list (bool * qpc)) : bool :=
+  negb (fe_closed en) && fe_closed en' && existsb (is_qusing e) qs.
+
+(* getOrCreateDnsForwarder, first half: Load *)
+Definition k_lookup (s : kstate) (t : nat) (f : bool) (a : nat) : kstate :=
+  match k_cache s with
+  | Some e => kset_q s t (f, QHold e a)
+  | None => kset_q s t (f, QCreating a)
+  end.
+
+Definition kq_step (cas : bool) (s : kstate) (t : nat) : kstate :=
+  match nth_error (k_qs s) t with
+  | None => s
+  | Some (f, pc) =>
+      match pc with
+      | QIdle => k_lookup s t f 0
+      | QCreating a =>
+          let n := length (k_ents s) in
+          match k_cache s with
+          | None =>     (* LoadOrStore stored the new instance *)
+              {| k_ents := k_ents s ++ [fresh_ent]; k_cache := Some n;
+                 k_qs := set_nth (k_qs s) t (f, QHold n a); k_bad := k_bad s |}
+          | Some e =>   (* another query won: the redundant instance is closed at once, never used *)
+              {| k_ents := k_ents s ++ [ent_close fresh_ent]; k_cache := Some e;
+                 k_qs := set_nth (k_qs s) t (f, QHold e a); k_bad := k_bad s |}
+          end
+      | QHold e a =>
+          match nth_error (k_ents s) e with
+          | None => kset_q s t (f, QDone 2)
+          | Some en =>
+              if fe_retired en then
+                match a with
+                | O => k_lookup s t f 1          (* beginUse failed: second round of the loop *)
+                | _ => kset_q s t (f, QDone 2)
+                end
+              else
+                {| k_ents := set_nth (k_ents s) e (ent_begin en); k_cache := k_cache s;
+                   k_qs := set_nth (k_qs s) t (f, QUsing e); k_bad := k_bad s |}
+          end
+      | QUsing e =>
+          match nth_error (k_ents s) e with
+          | None => s
+          | Some en =>
+              let qs' := set_nth (k_qs s) t (f, QEnded e) in
+              {| k_ents := set_nth (k_ents s) e (ent_enduse en); k_cache := k_cache s; k_qs := qs';
+                 k_bad := k_bad s || close_in_flight en (ent_enduse en) e qs' |}
+          end
+      | QEnded e =>
+          if f then
+            (* retireCachedDnsForwarder(key, entry) *)
+            if cas then
+              match k_cache s with
+              | Some e' => if Nat.eqb e' e
+                           then {| k_ents := k_ents s; k_cache := None;
+                                   k_qs := set_nth (k_qs s) t (f, QRetiring e); k_bad := k_bad s |}
+                           else kset_q s t (f, QDone 1)
+              | None => kset_q s t (f, QDone 1)
+              end
+            else {| k_ents := k_ents s; k_cache := None;
+                    k_qs := set_nth (k_qs s) t (f, QRetiring e); k_bad := k_bad s |}
+          else kset_q s t (f, QDone 0)
+      | QRetiring e =>
+          match nth_error (k_ents s) e with
+          | None => s
+          | Some en =>
+              let qs' := set_nth (k_qs s) t (f, QDone 1) in
+              {| k_ents := set_nth (k_ents s) e (ent_retire en); k_cache := k_cache s; k_qs := qs';
+                 k_bad := k_bad s || close_in_flight en (ent_retire en) e qs' |}
+          end
+      | QDone _ => s
+      end
+  end.
+
+Definition kstep (cas : bool) (s : kstate) (ev : kev) : kstate :=
+  match ev with
+  | KSpawn f => {| k_ents := k_ents s; k_cache := k_cache s; k_qs := k_qs s ++ [(f, QIdle)]; k_bad := k_bad s |}
+  | KQ t => kq_step cas s t
+  | KReload =>       (* retireAllDnsForwarders: Range, CompareAndDelete, retire *)
+      match k_cache s with
+      | None => s
+      | Some e =>
+          match nth_error (k_ents s) e with
+          | None => s
+          | Some en =>
+              {| k_ents := set_nth (k_ents s) e (ent_retire en); k_cache := None; k_qs := k_qs s;
+                 k_bad := k_bad s || close_in_flight en (ent_retire en) e (k_qs s) |}
+          end
+      end
+  | KCloseAll =>     (* closeAllDnsForwarders: Delete, closeNow (shutdown: closes whatever is in flight) *)
+      match k_cache s with
+      | None => s
+      | Some e =>
+          match nth_error (k_ents s) e with
+          | None => s
+          | Some en => {| k_ents := set_nth (k_ents s) e (ent_close en); k_cache := None; k_qs := k_qs s;
+                          k_bad := k_bad s |}
+          end
+      end
+  end.
+
+Definition krun (cas : bool) (evs : list kev) : kstate := fold_left (kstep cas) evs kinit.
+
+Definition k_quiescent (s : kstate) : bool := forallb q_quiet (k_qs s).
